@@ -443,13 +443,16 @@ def single_knob_deviations():
 # checking one tree
 # ---------------------------------------------------------------------------
 
-def check(spec, case, want_valid=None, acc=None):
+def check(spec, case, want_valid=None, acc=None, insert=False):
     probs = []
+    if not insert and e3.size(spec) <= 80:
+        # the same tree assembled with add_child(child, index) must evaluate the same
+        probs += check(spec, dict(case, built_with="add_child(child, index)"), acc=None, insert=True)
 
     def bad(kind, exp, obs, **sig):
         probs.append(problem(kind, case, expected=exp, observed=obs, **sig))
     core.reset_store()
-    root = witness.build(spec)
+    root = witness.build(spec, insert=insert)
     nodes = witness.preorder(root)
     pathmap = {}
 
